@@ -194,7 +194,7 @@ class Conc:
         kids = "".join(self.node(c) for c in n["ch"])
         if k == "g":
             a = [f'id="n{i}"'] if not n["href"] else [f'id="r{n["href"]}"', (f'class="rc{n["href"]} n{i}"' if n["href"] % 2 == 0 else f'class="n{i}"')]
-            a += [f'{x}="{v}"' for x, v in n["loc"]]
+            a += [f'{x}="{("x" * v) if self.strmode else v}"' for x, v in n["loc"]]
             if n["rd"] != "-" or n["val"] >= 0:
                 # the group's own probe; written after the locals or before them
                 pr = [f'data-v="${n["rd"]}"' if n["rd"] != "-" else f'data-v="{("x" * n["val"]) if self.strmode else n["val"]}"']
